@@ -393,3 +393,60 @@ func init() {
 		return convSym(types.Typ[types.Int], types.Typ[types.Int64], int63n(fr, args[0], n))
 	}
 }
+
+func init() {
+	// Grow is a capacity hint: with a symbolic size only its failure modes matter
+	externals["(*bytes.Buffer).Grow"] = func(fr *frame, args []value) value {
+		s, ok := args[1].(sym)
+		if !ok {
+			return notHandled
+		}
+		e := exOf(s.t)
+		c := s.t.C
+		if e.Branch(c.Cmp(smt.OpSLt, s.t, c.Const(0, 64))) {
+			panic(targetPanic{iface{types.Typ[types.String], "bytes.Buffer.Grow: negative count"}})
+		}
+		if e.Branch(c.Cmp(smt.OpSLt, c.Const(uint64(e.AllocLimit), 64), s.t)) {
+			panic(uncaughtPanic{"alloc", fr.caller.fn.String(), fmt.Sprintf("bytes.Buffer.Grow size controlled by input can exceed %d bytes", e.AllocLimit)})
+		}
+		return nil
+	}
+}
+
+// callBody interprets fn's own body (bypassing its external).
+func callBody(fr *frame, fn *ssa.Function, args []value) value {
+	nf := &frame{i: fr.i, caller: fr.caller, fn: fn}
+	return runSSA(nf, fn, args, nil)
+}
+
+func init() {
+	// io.CopyN(dst, src, n) with a symbolic n and a *bytes.Reader source: every n beyond what the reader holds
+	// behaves alike (all remaining bytes are copied, io.EOF is returned), so one representative is explored.
+	externals["io.CopyN"] = func(fr *frame, args []value) value {
+		s, ok := args[2].(sym)
+		if !ok {
+			return notHandled
+		}
+		src, ok := args[1].(iface)
+		if !ok || src.t == nil || src.t.String() != "*bytes.Reader" {
+			return notHandled
+		}
+		rd := (*src.v.(*value)).(structure) // bytes.Reader{s []byte, i int64, prevRune int}
+		remaining := int64(len(rd[0].([]value))) - rd[1].(int64)
+		if remaining < 0 {
+			remaining = 0
+		}
+		e := exOf(s.t)
+		c := s.t.C
+		fn := fr.fn
+		var n int64
+		if e.Branch(c.Cmp(smt.OpSLt, c.Const(uint64(remaining), 64), s.t)) {
+			n = remaining + 1
+		} else if e.Branch(c.Cmp(smt.OpSLt, s.t, c.Const(0, 64))) {
+			n = -1
+		} else {
+			n = e.ForkValue(s.t, true, "io.CopyN")
+		}
+		return callBody(fr, fn, []value{args[0], args[1], n})
+	}
+}
